@@ -340,6 +340,9 @@ def _c06(tier, seed):
     if tier == 'thorough':
         for be in ['spqlios-fma', 'fftw', 'nayuki-portable']:
             jobs += J('c06.cpp', 'optim', be, n=5, args=['part=sched', 'threads=3', 'bound=2', 'tiny_n=1'], ldflags='-ldl', deadline=2400, timeout=3000)
+        for be in ['fftw', 'spqlios-fma']:   # preemption bound 3 for the smaller scenarios
+            for sc in ['H1', 'K-', 'K2', 'H6']:
+                jobs += J('c06.cpp', 'optim', be, n=4, args=['part=sched', 'threads=2', 'bound=3', 'tiny_n=1', 'scenario=' + sc], ldflags='-ldl', deadline=2400, timeout=3000)
         jobs += J('c06.cpp', 'debug', 'fftw', n=8, args=['part=hist', 'depth=2'], ldflags='-ldl', deadline=2400, timeout=3000, env={'MALLOC_PERTURB_': '0'})
     return jobs
 PROPS['C06'] = dict(
@@ -350,7 +353,7 @@ PROPS['C06'] = dict(
          'no two threads at FFTW planner calls without a common lock. histories: every sequence of <= depth operations over a 14-operation alphabet on a fresh thread, then a probe (3 gates): bytes == reference. '
          'non-trivial = schedule with at least one preemption / non-empty history',
     bounds={'quick': '2 threads, <= 2 preemptions, 9 scenarios (FFT products, external products with shared key, gates with shared cloud key (n=1), gate vs key generation, Karatsuba products, gates / a direct bootstrap / COPY / NOT on SHARED input ciphertexts, Karatsuba products with shared operands, thread churn with 31 and 63 short-lived threads between two live ones) x 5 back-ends; histories depth 2 (211 sequences), probe = 4 gates with the 128-bit key + NAND, MUX and an FFT external product under a k=2 key, on an unperturbed heap',
-            'thorough': '+ 3 threads (3 back-ends), tiny key n=2, histories depth 3'},
+            'thorough': '+ 3 threads (3 back-ends), tiny key n=2, histories depth 3; <= 3 preemptions for the FFT-product, Karatsuba and shared-input scenarios on fftw and spqlios-fma'},
     assumptions=['preemption happens only at the interposed points (the code has no atomics; no memory-ordering effects below that granularity are modelled)',
                  'data races invisible to the scheduler are the business of the free-running TSan pass (supporting evidence, blind to the assembly kernels)'],
     jobs=_c06, max_report=6, min_outcomes=1,
